@@ -931,7 +931,7 @@ impl MdkSqliteStorage {
         // This is critical because the groups table has ON DELETE CASCADE to
         // group_state_snapshots - if we delete the group first, the snapshot
         // rows get deleted too!
-        let snapshot_rows: Vec<(String, Vec<u8>, Vec<u8>)> = {
+        let mut snapshot_rows: Vec<(String, Vec<u8>, Vec<u8>)> = {
             let mut stmt = conn
                 .prepare(
                     "SELECT table_name, row_key, row_data FROM group_state_snapshots
@@ -948,6 +948,26 @@ impl MdkSqliteStorage {
             rows.collect::<Result<Vec<_>, _>>()
                 .map_err(|e| Error::Database(e.to_string()))?
         };
+
+        // The own leaf nodes are an ordered list (read back ORDER BY id) and are re-inserted
+        // under fresh ids in the order of this vector. Their row key is the JSON text of the
+        // id they had, and the rows come back in key order, where "10" sorts before "9":
+        // put them into numeric id order, in the places they occupy.
+        let mut leaf_rows: Vec<(String, Vec<u8>, Vec<u8>)> = snapshot_rows
+            .iter()
+            .filter(|(table, _, _)| table == "openmls_own_leaf_nodes")
+            .cloned()
+            .collect();
+        leaf_rows.sort_by_key(|(_, key, _)| serde_json::from_slice::<i64>(key).unwrap_or(i64::MAX));
+        let mut ordered_leaf_rows = leaf_rows.into_iter();
+        for row in snapshot_rows
+            .iter_mut()
+            .filter(|(table, _, _)| table == "openmls_own_leaf_nodes")
+        {
+            if let Some(ordered) = ordered_leaf_rows.next() {
+                *row = ordered;
+            }
+        }
 
         // Also read OTHER snapshots for this group (different names) so we can
         // restore them after the CASCADE deletion. This preserves multiple snapshots.
